@@ -1,5 +1,6 @@
 import CedarVerif.Lemmas.SyntaxSound
 import CedarVerif.Lemmas.SyntaxSplitOn
+import CedarVerif.Cedar.Eval
 /-
 C05 — policy text → AST → text round trip.  Property theorems (every `theorem` here is an obligation).
 Model: Cedar/Syntax/{Token,Escape,Print,Parse}.lean.
@@ -20,6 +21,7 @@ What is proved about `Parse.expr (Print.expr me e) = some e` (for every escape t
   syntax) `Parse.expr` only returns `ParserImage` ASTs.
 * `parse_print_parse` — from text: every accepted token list `ts` with `Parse.expr ts = some e` satisfies
   `Parse.expr (Print.expr me e) = some e`.
+* `round_trip_meaning`, `round_trip_meaning_text` — the re-parsed expression evaluates like the original (corollaries).
 * `parse_print_partial3` (fragment `inFrag3`, Lemmas/SyntaxMem.lean; = `ParserImage` by `inFrag3_parserImage` /
   `parserImage_inFrag3`), `parse_print_partial` (the older, smaller fragment `inFrag2`, independent proof), `inFrag2_inFrag3`.
 Proof files: Lemmas/Syntax{Parse,Frag,Main,Chain}.lean (operators, chains), Syntax{Mem,Rec,Name,Prim,Full}.lean (`Member`
@@ -470,6 +472,18 @@ parsing again gives the same AST — hence the same meaning.  (Token level.) -/
 theorem parse_print_parse (mustEscape : Char → Bool) (ts : List Token) (hwf : TokWF ts) (e : Expr)
     (h : Parse.expr ts = some e) : Parse.expr (Print.expr mustEscape e) = some e :=
   parse_print_partial3 mustEscape e (parse_sound splitOn_joinName hwf h)
+
+/-- "…and meaning": the re-parsed expression evaluates to the same result on every request, entity store and slot
+environment (immediate from `parse_print_full` / `parse_print_parse`; stated because the property says so). -/
+theorem round_trip_meaning (mustEscape : Char → Bool) (e : Expr) (h : ParserImage e = true)
+    (req : Request) (es : Entities) (env : SlotEnv) :
+    (Parse.expr (Print.expr mustEscape e)).map (evaluate req es env) = some (evaluate req es env e) := by
+  rw [parse_print_full mustEscape e h]; rfl
+
+theorem round_trip_meaning_text (mustEscape : Char → Bool) (ts : List Token) (hwf : TokWF ts) (e : Expr)
+    (h : Parse.expr ts = some e) (req : Request) (es : Entities) (env : SlotEnv) :
+    (Parse.expr (Print.expr mustEscape e)).map (evaluate req es env) = (Parse.expr ts).map (evaluate req es env) := by
+  rw [parse_print_parse mustEscape ts hwf e h, h]
 
 -- non-vacuity: `principal has a.b && resource != context.x` (desugared forms: `has a.b`, `!=`)
 example :
